@@ -82,6 +82,12 @@ def _case(dim, nv, edges, fixed, ff, shared=False, restart=False, far=False):
             with warnings.catch_warnings():
                 warnings.simplefilter("ignore")
                 graph.optimize(tol=1e-9, max_iter=2, fix_first_pose=ff, verbose=False)
+            if restart == "reflag":
+                # the user also changes WHICH vertices are held: the first fixed one is released, the first free one is held
+                rel = min(eff)
+                hold = min(i for i in range(nv) if i not in eff)
+                verts[rel].fixed, verts[hold].fixed = False, True
+                eff = (eff - {rel}) | {hold}
             for i, v in enumerate(verts):
                 if i in eff:
                     continue
@@ -171,5 +177,6 @@ def cases(tier):
                 topo.append(t)
     shared_cases = [Case("shared-start-" + _name(t), _case(*t, shared=True), timeout=60, old_timeout=60, validate=2, feas_timeout_ms=2000) for t in (TOPO_QUICK[1], TOPO_QUICK[2], TOPO_QUICK[6])]
     shared_cases += [Case("far-start-" + _name(t), _case(*t, far=True), timeout=60, old_timeout=60, validate=3, shadow=False, feas_timeout_ms=2000) for t in (TOPO_QUICK[1], TOPO_QUICK[4], TOPO_QUICK[5])]
+    shared_cases += [Case("restart-reflag-" + _name(t), _case(*t, restart="reflag"), timeout=60, old_timeout=60, validate=2, feas_timeout_ms=2000) for t in (TOPO_QUICK[8], TOPO_QUICK[3])]
     shared_cases += [Case("restart-" + _name(t), _case(*t, restart=True), timeout=60, old_timeout=60, validate=2, feas_timeout_ms=2000) for t in (TOPO_QUICK[2], TOPO_QUICK[7], TOPO_QUICK[9])]
     return shared_cases + [Case(_name(t), _case(*t), timeout=60 if tier == "quick" else 300, old_timeout=60 if tier == "quick" else 300, validate=2, feas_timeout_ms=2000, shards=2 if t[1] >= 3 else 1) for t in topo]
